@@ -3,6 +3,8 @@
 BINARIES = {
     "pebbledb": {"pkg": "./pkg/storage/pebbledb"},
     "jsondb": {"pkg": "./pkg/storage/jsondb"},
+    "llm": {"pkg": "./internal/llm"},
+    "cli": {"pkg": "./internal/cli"},
 }
 
 STORE_STUB = {
@@ -13,6 +15,25 @@ STORE_STUB = {
 }
 
 CHECKS = {
+    "C13": {
+        "level": "exploration",
+        "budget": {"quick": 40, "thorough": 900},
+        "rule": ("one evaluation = one simulated audit: a tape-drawn commit message from a hostile alphabet (quotes, newlines, look-alike and "
+                 "correctly-guessed delimiters, >2000 runes, invalid UTF-8) and a tape-drawn provider behaviour for every request of both calls and all "
+                 "retries (200 with good/hostile/malformed answers in several envelopes, fatal 4xx and retryable 429/5xx carrying a good body, transport "
+                 "errors, truncated bodies, mid-stream read errors, oversize, nothing-to-extract, stalls and slow answers on the fake clock), for the "
+                 "OpenAI and the Gemini code path. Non-trivial = at least two provider exchanges; distinct = distinct (family, model, exchange sequence, message length)."),
+        "jobs": [
+            {"engine": "llmsim-provider", "bin": "llm", "test": "TestVerifC13LLM", "cfg": {}, "weight": 3},
+            {"engine": "llmsim-provider", "bin": "llm", "test": "TestVerifC13LLM", "cfg": {"faults": "off"}, "weight": 1, "max_workers": 1},
+            {"engine": "llmsim-audit", "bin": "cli", "test": "TestVerifC13Audit", "cfg": {}, "weight": 3},
+        ],
+        "assumptions": ["a pass on an answer with duplicate keys or differently-cased keys is not constrained (the statement does not say)",
+                        "fenced or prose-decorated JSON whose inner object is well-formed with verdict exactly MATCH may pass"],
+        "real_vs_stub": {"code_under_test": "real (internal/llm, internal/cli audit path), uninstrumented", "http_provider": "simulated RoundTripper, no sockets",
+                         "clock": "simulated (testing/synctest bubble)", "genai_sdk": "real google.golang.org/genai client on the simulated transport",
+                         "sandbox_runtime": "absent (runsc); the code's own runDirect fallback with the child process scripted by the harness"},
+    },
     "C18": {
         "level": "exploration",
         "budget": {"quick": 45, "thorough": 900},
@@ -80,11 +101,19 @@ NOT_APPLICABLE = {
     "C01": "PENDING: fpsim harness (pooled canonicaliser + map-order + concurrent callers) not yet built in this revision",
     "C10": "PENDING: clisim harness not yet built in this revision",
     "C11": "PENDING: concurrent configuration of storesim not yet built in this revision",
-    "C13": "PENDING: llmsim harness not yet built in this revision",
     "C16": "PENDING: clisim fault-injection harness not yet built in this revision",
 }
 
 MANIFEST_TEXT = {
+    "C13": {
+        "engine": "llmsim",
+        "technique": "deterministic simulation with fault injection: simulated HTTP provider and fake clock (testing/synctest), seeded response/fault scripts and hostile commit messages, fail-closed and envelope invariants checked on every run",
+        "design_ref": "DESIGN.md §3 C13",
+        "level_text": ("Seeded search over provider fault sequences and hostile commit messages with the provider and the clock simulated; every run checks "
+                       "that a passing verdict is only produced when the simulator itself delivered a safe screen answer and a well-formed MATCH answer, and "
+                       "that every request carries the commit message as one JSON string inside an uncloseable envelope."),
+        "level_note": "Trusts: the simulator's classification of the answers it authored, net/http client behaviour on a custom RoundTripper, synctest's fake clock.",
+    },
     "C18": {
         "engine": "storesim",
         "technique": "deterministic simulation with fault injection on a simulated disk: seeded inputs/histories, exhaustive truncation points and SaveDatabase crash points per sampled input, injected I/O errors, comparison with a reference model",
